@@ -183,6 +183,19 @@ S01Holds(h) == /\ h.out.status = h.par.expect_status
                /\ (h.out.status = 200 /\ h.par.http_method # "HEAD" => h.out.ctype = "application/json")
 DriftS01 == (H.out.set /\ Wants("L2") /\ S01App(H) /\ ~S01Holds(H)) => PrintT(<<"L2", "drift", H.scen, l>>)
 
+\* S02 (extra): the command line surface - what the printed document shows of the flags (KernelPath!CliScen); drift only
+S02App(h) == h.out.set /\ h.par.entry = "labcli"
+S02Holds(h) ==
+    LET ex == h.par.expect_cli  o == h.out IN
+    /\ o.ok = ex.ok
+    /\ ex.ok => /\ o.protocol = ex.protocol
+                /\ Len(o.runs) = ex.runs
+                /\ \A r \in DOMAIN o.runs : /\ o.runs[r].dst = ex.dst /\ o.runs[r].dport = ex.dport
+                                              /\ Len(o.runs[r].hops) = ex.hoplen
+                                              /\ \A k \in DOMAIN o.runs[r].hops : o.runs[r].hops[k].ttl = k
+                /\ o.e2e_sent = ex.e2e
+DriftS02 == (H.out.set /\ Wants("L2") /\ S02App(H) /\ ~S02Holds(H)) => PrintT(<<"L2", "drift", H.scen, l>>)
+
 \* acceptance: the whole trace was consumed
 Consumed == TLCGet("level") - 1 = Len(Trace) \/ TRUE
 TraceAccepted == TLCGet("stats").diameter - 1 = Len(Trace)
